@@ -38,7 +38,7 @@ def _patch_accept():
 
 
 class ServeHarness:
-    def __init__(self, backend, config_kv, apps, max_requests=None, wsgi=None):
+    def __init__(self, backend, config_kv, apps, max_requests=None, wsgi=None, config=None):
         from hypercorn.config import Config
 
         self.backend = backend
@@ -46,7 +46,8 @@ class ServeHarness:
         self.trace = Trace(lambda: time.monotonic() - self.t0)
         self.apps = ScriptedApps(self.trace, apps)
         self.apps.polling = True
-        self.config = Config()
+        # `config`: an existing Config object to serve with again (a replacement worker started in-process from the same configuration)
+        self.config = config if config is not None else Config()
         for k, v in config_kv.items():
             setattr(self.config, k, v)
         import logging
